@@ -213,6 +213,86 @@ theorem delete_rejected_noop (s : Pkg) (tname : List Char) (cond : Option Ast) (
             rcases hk with h1 | h1 <;> cases h1
           · cases (Prod.mk.inj h).2
 
+/-- a failed `storeRows` fails with InvalidInput (the only error `write_rows` has) -/
+theorem storeRows_err (s : Pkg) (t : Table) (rows : List (List Cell)) (s' : Pkg) (k : ErrKind)
+    (h : storeRows s t rows = (s', .err k)) : k = .invalidInput := by
+  unfold storeRows at h
+  split at h
+  · cases (Prod.mk.inj h).2
+  · rename_i k' hk'
+    have e : k' = k := by injection (Prod.mk.inj h).2
+    subst e
+    exact writeCols_err _ _ _ _ _ _ hk'
+  · cases (Prod.mk.inj h).2
+
+theorem upd_tail_noop (s : Pkg) (t : Table) (ups : List (Nat × Value))
+    (rows : List (List Cell)) (planned : List (List Value × Bool)) (dup : Bool) (order : List Nat)
+    (s' : Pkg) (k : ErrKind) (hk : k ≠ .invalidInput)
+    (h : (if dup = true then (s, Res.err ErrKind.alreadyExists) else
+      match updApply ups s.pool rows planned [] with
+      | .err k => (s, .err k)
+      | .panic w => (s, .panic w)
+      | .ok (pool', rows') => storeRows { s with pool := pool' } t (order.map fun i => rows'.getD i [])) = (s', .err k)) :
+    s' = s := by
+  cases dup with
+  | true => simp only [if_true] at h; exact (Prod.mk.inj h).1.symm
+  | false =>
+    simp only [Bool.false_eq_true, if_false] at h
+    cases hu : updApply ups s.pool rows planned [] with
+    | err k1 => simp only [hu] at h; exact (Prod.mk.inj h).1.symm
+    | panic w => simp only [hu] at h; exact (Prod.mk.inj h).1.symm
+    | ok x =>
+      obtain ⟨pool', rows'⟩ := x
+      simp only [hu] at h
+      exact absurd (storeRows_err _ _ _ _ _ h) hk
+
+/-- **`Update::exec`: a rejection other than InvalidInput — unknown table, a key collision, a
+malformed stored table — returns exactly the state it was given**; the InvalidInput rejections of
+the checks (unknown column, invalid value, condition naming an unknown column) are covered by
+`update_invalid_noop` -/
+theorem update_rejected_noop (s : Pkg) (tname : List Char) (ups : List (List Char × Value)) (cond : Option Ast)
+    (k : ErrKind) (s' : Pkg) (h : updateExec s tname ups cond = (s', .err k)) (hk : k ≠ .invalidInput) :
+    s' = s := by
+  unfold updateExec at h
+  cases hf : s.findTable tname with
+  | none => simp only [hf] at h; exact (Prod.mk.inj h).1.symm
+  | some t =>
+    simp only [hf] at h
+    cases hv : validateUpdates t ups with
+    | some k1 => simp only [hv] at h; exact (Prod.mk.inj h).1.symm
+    | none =>
+      simp only [hv] at h
+      by_cases hm : condMissing t cond = true
+      · rw [if_pos hm] at h; exact (Prod.mk.inj h).1.symm
+      · rw [if_neg hm] at h
+        cases hl : s.loadRows t with
+        | err k1 => simp only [hl] at h; exact (Prod.mk.inj h).1.symm
+        | panic w => simp only [hl] at h; exact (Prod.mk.inj h).1.symm
+        | ok rows =>
+          simp only [hl] at h
+          cases hp : updPlan t s.pool cond
+              (List.filterMap (fun x => Option.map (fun i => (i, storable x.snd)) (t.indexOfColumn x.fst)) ups) rows [] with
+          | err k1 => simp only [hp] at h; exact (Prod.mk.inj h).1.symm
+          | panic w => simp only [hp] at h; exact (Prod.mk.inj h).1.symm
+          | ok planned =>
+            simp only [hp] at h
+            exact upd_tail_noop s t _ _ _ _ _ s' k hk h
+
+/-- the checks of `Update::exec` (assignments, then the condition) reject before anything changes -/
+theorem update_invalid_noop (s : Pkg) (tname : List Char) (ups : List (List Char × Value)) (cond : Option Ast)
+    (t : Table) (ht : s.findTable tname = some t)
+    (h : validateUpdates t ups ≠ none ∨ condMissing t cond = true) :
+    ∃ k, updateExec s tname ups cond = (s, .err k) := by
+  unfold updateExec
+  simp only [ht]
+  cases hv : validateUpdates t ups with
+  | some k1 => exact ⟨k1, rfl⟩
+  | none =>
+    simp only
+    rcases h with h | h
+    · exact absurd hv h
+    · exact ⟨.invalidInput, by rw [if_pos h]⟩
+
 /-- non-vacuity: a 40-character table name is caught by the checks (it fits the container
 but not the `_Validation.Table` column) -/
 example : createError (default : Pkg) (List.replicate 40 'T')
